@@ -991,6 +991,64 @@ func c04BatchResponses(p *Prog, r *Report, R4 string, ne1, nk1, nk2 int64) {
 			}
 		}
 	}
+	// or: the table lives in an in-module selector (length, ok) := f(tokenType)
+	// whose accepting returns are constants chosen under tokenType == K, used
+	// only when it accepted
+	if len(lens) == 0 {
+		for _, b := range rfn.Blocks {
+			for _, in := range b.Instrs {
+				c, ok := in.(*ssa.Call)
+				if !ok {
+					continue
+				}
+				f := c.Call.StaticCallee()
+				if f == nil || !InModule(f) || f.Blocks == nil || f.Signature.Results().Len() != 2 || verdictIndex(f) != 1 {
+					continue
+				}
+				ch := s.child(f)
+				s.bindArgs(ch, f, c.Call.Args, c)
+				tmp := map[string]int64{}
+				okSel := true
+				for _, rp := range ch.ff.RetPoints(1) {
+					if rp.Outcome == Fails {
+						continue
+					}
+					k, isK := rp.Vals[0].(*ssa.Const)
+					if !isK || k.Value == nil || k.Value.Kind() != constant.Int {
+						okSel = false
+						continue
+					}
+					found := false
+					for _, a := range rp.Facts {
+						if a.Kind == Truth && a.Pol {
+							if bo, ok := a.V.(*ssa.BinOp); ok && bo.Op == token.EQL {
+								if _, isParam := bo.X.(*ssa.Parameter); isParam {
+									if tag, ok := bo.Y.(*ssa.Const); ok && tag.Value != nil {
+										tmp[tag.Value.ExactString()] = k.Int64()
+										found = true
+										break
+									}
+								}
+							}
+						}
+					}
+					if !found {
+						okSel = false
+					}
+				}
+				// the length read must be behind ok == true
+				used := false
+				for _, rd := range sitesIn(rfn, func(n string) bool { return strings.HasSuffix(n, "cryptobyte.String).ReadBytes") }) {
+					if ex, ok := rd.Common().Args[2].(*ssa.Extract); ok && ex.Tuple == ssa.Value(c) && s.factsHaveCallSuccess(rd.Block(), c) {
+						used = true
+					}
+				}
+				if okSel && used && len(tmp) > 0 {
+					lens = tmp
+				}
+			}
+		}
+	}
 	want := map[string]int64{"1": ne1 + 2*nk1, "2": nk2}
 	ok := len(lens) == 2 && lens["1"] == want["1"] && lens["2"] == want["2"]
 	r.Check(ok, R4, name+": decoder response length per type", p.Pos(rfn.Pos()), fmt.Sprintf("type 1 -> %d (Ne+2Nk), type 2 -> %d (Nk)", want["1"], want["2"]), fmt.Sprintf("decoder uses lengths %v, required %v (type-1 response = element || DLEQ proof = Ne+2Nk, type-2 = Nk)", lens, want))
